@@ -39,7 +39,7 @@ var c03Dims = []c03Dim{
 	{"req-chunked", []string{"no", "yes"}},
 	{"req-gzip", []string{"no", "yes"}},
 	{"status", []string{"200", "204", "301", "404", "500"}},
-	{"resp-body", []string{"1", "0", "1023", "1024", "8192"}},
+	{"resp-body", []string{"1", "0", "1023", "1024", "8192", "100000"}},
 	{"resp-chunked", []string{"no", "yes"}},
 	{"resp-gzip", []string{"no", "yes"}},
 	{"pipeline", []string{"proxy", "reqadaptor-body", "reqadaptor-compress", "reqadaptor-decompress", "respadaptor-body", "respadaptor-compress", "respadaptor-decompress"}},
@@ -49,6 +49,23 @@ var c03Dims = []c03Dim{
 }
 
 type c03Case map[string]string
+
+// c03Body: small bodies are a readable pattern; bodies of several flush units (32 KiB) are poorly compressible, so
+// that the compressed stream also spans several reads and buffers
+func c03Body(n int) []byte {
+	if n < 32768 {
+		return pattern(n)
+	}
+	b := make([]byte, n)
+	x := uint32(2463534242)
+	for i := range b {
+		x ^= x << 13
+		x ^= x >> 17
+		x ^= x << 5
+		b[i] = byte('a' + (x>>8)%26)
+	}
+	return b
+}
 
 func (c c03Case) nonDefault() string {
 	var s []string
@@ -145,7 +162,7 @@ var c03Hop = map[string][2]string{
 
 func TestVerifC03(t *testing.T) {
 	env := mc.GetEnv()
-	maxDev := 2
+	maxDev := 3
 	if env.Thorough() {
 		maxDev = 4
 	}
@@ -168,7 +185,7 @@ func TestVerifC03(t *testing.T) {
 		// ---- the client's request
 		var n int
 		fmt.Sscan(cs["req-body"], &n)
-		reqLogical := pattern(n)
+		reqLogical := c03Body(n)
 		wire := reqLogical
 		q := lbReq{method: cs["method"], host: "front.example", chunked: cs["req-chunked"] == "yes"}
 		q.target = cs["path"]
@@ -201,7 +218,7 @@ func TestVerifC03(t *testing.T) {
 		var rn, status int
 		fmt.Sscan(cs["resp-body"], &rn)
 		fmt.Sscan(cs["status"], &status)
-		respLogical := bytes.ToUpper(pattern(rn))
+		respLogical := bytes.ToUpper(c03Body(rn))
 		sc := lbScript{status: status, chunked: cs["resp-chunked"] == "yes", hdr: [][2]string{{"X-Resp", "v1"}, {"X-Resp", "v2"}, {"Content-Type", "text/plain"}}}
 		sc.body = respLogical
 		if cs["resp-gzip"] == "yes" && rn > 0 {
